@@ -41,6 +41,13 @@ type syStep struct {
 	Quiet   bool  `json:"quiet"`
 	Banned  any   `json:"banned"`  // env connect: bool ; mgr: list of banned peers
 	BestOff int   `json:"bestoff"` // mgr: best block offered by the connected nodes (-1 = none)
+	Raw     bool  `json:"raw"`     // env reply: the node ignores the stop hash
+	Loc     []int `json:"loc"`     // env ask: locator (block ids; ids above the universe = hashes the service cannot know)
+	Stop    int   `json:"stop"`    // env ask: stop block id, -1 = zero hash
+	Served  *struct {
+		Sent bool  `json:"sent"`
+		Ids  []int `json:"ids"`
+	} `json:"served"` // env ask: the answer the service owes (C13): none while not current, else the next longest-chain headers
 }
 
 type syScn struct {
@@ -50,6 +57,7 @@ type syScn struct {
 	Forbid    []int  `json:"forbid"`
 	Cap       int    `json:"cap"`
 	Name      string `json:"name"`
+	Findings  []string `json:"findings"`
 }
 
 type syFinal struct {
@@ -80,6 +88,7 @@ type node struct {
 	byHash map[chainhash.Hash]int
 	best   int // the node's current tip (block id)
 	asked  int // getheaders answered so far
+	hdrs   [][]int // headers messages received from the service (block ids; -77 = unknown hash)
 }
 
 func (n *node) send(m wire.Message) error {
@@ -122,6 +131,18 @@ func (n *node) reader() {
 			}
 			n.mu.Lock()
 			n.got = append(n.got, s)
+			n.mu.Unlock()
+		case *wire.MsgHeaders:
+			ids := []int{}
+			for _, h := range mm.Headers {
+				if id, ok := n.byHash[h.BlockHash()]; ok {
+					ids = append(ids, id)
+				} else {
+					ids = append(ids, -77)
+				}
+			}
+			n.mu.Lock()
+			n.hdrs = append(n.hdrs, ids)
 			n.mu.Unlock()
 		}
 	}
@@ -350,6 +371,18 @@ func (sr *syncRig) observe(nb int) (st []string, tip int) {
 	return
 }
 
+// storedHeights returns the height recorded in the store for every stored block id.
+func (sr *syncRig) storedHeights() map[int]int {
+	rows, _ := sr.stack.Rows()
+	m := map[int]int{}
+	for i, h := range sr.hashes {
+		if r, ok := rows[h.String()]; ok {
+			m[i] = int(r.Height)
+		}
+	}
+	return m
+}
+
 // chainOf returns the ids of the chain ending in b (genesis first).
 func (sr *syncRig) chainOf(par []int, b int) []int {
 	var c []int
@@ -440,6 +473,7 @@ func opSync() error {
 			}
 			bannedConnect, _ := st.Banned.(bool)
 			var opErr error
+			before := sr.storedHeights()
 			switch st.Op {
 			case "connect":
 				consumed[st.P] = 0
@@ -473,6 +507,9 @@ func opSync() error {
 					drifted = true
 					continue
 				}
+				if st.Raw {
+					rq.Stop = -1
+				}
 				ids := sr.protoReply(b.Scn.Par, n.best, *rq, b.Scn.Cap)
 				if fmt.Sprint(ids) != fmt.Sprint(st.Ids) && !(len(ids) == 0 && len(st.Ids) == 0) {
 					if !drifted {
@@ -500,6 +537,53 @@ func opSync() error {
 					_ = n.conn.Close()
 				}
 				everClosed[st.P] = true
+			case "ask":
+				// the node asks the service for headers (the service as a server, C13 at the protocol level)
+				n := sr.nodes[st.P]
+				if n == nil || n.isClosed() {
+					continue
+				}
+				n.mu.Lock()
+				before := len(n.hdrs)
+				n.mu.Unlock()
+				gh := wire.NewMsgGetHeaders()
+				for _, id := range st.Loc {
+					var h chainhash.Hash
+					if id >= 0 && id < len(sr.hashes) {
+						h = sr.hashes[id]
+					} else {
+						h = chainhash.Hash{0xab, byte(id)}
+					}
+					_ = gh.AddBlockLocatorHash(&h)
+				}
+				if st.Stop >= 0 {
+					gh.HashStop = sr.hashes[st.Stop]
+				}
+				if err := n.send(gh); err != nil {
+					continue
+				}
+				sr.settle()
+				n.mu.Lock()
+				got := append([][]int(nil), n.hdrs[before:]...)
+				n.mu.Unlock()
+				res.Stats["asks"]++
+				if st.Served != nil && !drifted {
+					want := "no answer (the service is not current)"
+					if st.Served.Sent {
+						want = fmt.Sprintf("one headers message %v", append([]int{}, st.Served.Ids...))
+						res.Stats["asks-answered"]++
+					}
+					have := "no answer (the service is not current)"
+					if len(got) == 1 {
+						have = fmt.Sprintf("one headers message %v", got[0])
+					} else if len(got) > 1 {
+						have = fmt.Sprintf("%d headers messages %v", len(got), got)
+					}
+					if have != want {
+						miss(k, "sync-serve", fmt.Sprintf("getheaders(locator %v, stop %d) from node %d is answered with %s", st.Loc, st.Stop, st.P, want), have)
+					}
+				}
+				continue
 			case "restart":
 				// the process stops and starts again on the same database file
 				for p := range sr.nodes {
@@ -593,6 +677,38 @@ func opSync() error {
 				}
 				if closed {
 					everClosed[p] = true
+				}
+			}
+			// C07, stated independently of Sync.tla's mechanics: a node that delivered a NEW header which the store now holds at
+			// the height of a configured checkpoint, and which is not that checkpoint, must have been disconnected
+			if b.Scn.CpEnabled && (st.Op == "reply" || (st.Op == "announce" && st.How == "headers")) {
+				after := sr.storedHeights()
+				cpAt := map[int]int{}
+				for _, c := range b.Scn.Cps {
+					cpAt[sr.heights[c]] = c
+				}
+				delivered := st.Ids
+				if st.Op == "announce" {
+					delivered = []int{st.B}
+				}
+				for _, id := range delivered {
+					_, had := before[id]
+					h, has := after[id]
+					if c, isCp := cpAt[h]; has && !had && isCp && c != id {
+						res.Stats["checkpoint-contradictions-delivered"]++
+						if n := sr.nodes[st.P]; n != nil && !n.isClosed() {
+							listed := false
+							for _, f := range b.Scn.Findings {
+								listed = listed || f == "C1-only-next-checkpoint-compared"
+							}
+							if listed && !wantClosed[st.P] {
+								res.Stats["finding-witness:C1-only-next-checkpoint-compared"]++
+							} else if !wantClosed[st.P] {
+								miss(k, "sync-contain", fmt.Sprintf("node %d delivered block %d, stored at checkpoint height %d where the checkpoint is block %d: it is disconnected", st.P, id, h, c), "still connected")
+							}
+						}
+						break
+					}
 				}
 			}
 			gotSt, gotTip := sr.observe(nb)
